@@ -6,6 +6,7 @@
 package c10
 
 import (
+	"time"
 	"encoding/json"
 	"os"
 
@@ -24,8 +25,12 @@ func init() {
 
 func run(c *vf.Ctx) {
 	// validation half first: it is the smaller one, so a loaded machine cannot starve it of the shared time budget
+	t0 := time.Now()
 	runValidation(c)
+	c.Set("validation_half_wall_s", time.Since(t0).Seconds())
+	t1 := time.Now()
 	runDecoders(c)
+	c.Set("decoder_half_wall_s", time.Since(t1).Seconds())
 }
 
 // runValidation is the second half of C10 (validation totality: structure-aware
